@@ -429,5 +429,7 @@ func getOrParse(dest interface{}, cacheStore *sync.Map, namer Namer) (*Schema, e
 	}
 	verifPoint("sc:relmiss", modelType)
 
-	return Parse(dest, cacheStore, namer)
+	s, err := Parse(dest, cacheStore, namer)
+	verifPoint("sc:relparsed", modelType)
+	return s, err
 }
